@@ -963,7 +963,7 @@ func c14RequiredSeparators(c *Ctx) {
 	rule := "delimiter-agreement"
 	for _, rq := range []struct {
 		decoder, list, printer string
-		sep                     byte
+		sep                    byte
 	}{{"parseUriHeader", "SIPURI.Headers", "(*SIPURI)._Write", '='}} {
 		df, pf := c.fn(rule, rq.decoder), c.fn(rule, rq.printer)
 		if df == nil || pf == nil {
